@@ -123,6 +123,11 @@ for mut, what in [("fut_first", "reorder placing the future cone of b before the
     r = tlc("graph/AcyclicPK", "MCAcyclicPKNeg_%s.cfg" % mut, workers=4, timeout=300)
     expect("AcyclicPK mutant %s violates Inv: %s" % (mut, what), any("Invariant Inv is violated" in e for e in r.errors), str(r.errors[:1]))
 
+for mut, what in [("no_offset", "binary-search branch of find_edge_pos forgetting the row offset"), ("bump_from_a", "row offsets bumped from the row itself instead of the next one"),
+                  ("und_one_row", "undirected edge stored in one row only"), ("count_loops_twice", "undirected self-loop counted twice")]:
+    r = tlc("simple/CsrImpl", "MCCsrImplNeg_%s.cfg" % mut, workers=4, timeout=300)
+    expect("CsrImpl mutant %s violates Inv: %s" % (mut, what), any("Invariant Inv is violated" in e for e in r.errors), str(r.errors[:1]))
+
 bad = [r for r in results if not r["ok"]]
 os.makedirs(os.path.join(VERIF, "evidence"), exist_ok=True)
 json.dump({"tests": results, "failed": len(bad)}, open(os.path.join(VERIF, "evidence", "selftest.json"), "w"), indent=1)
